@@ -104,6 +104,20 @@ theorem gen_model_refines_spec_partial (cl : Nat → Nat) (chunks : List (List U
   rw [this]
   exact model_refines_spec_partial cl chunks hR
 
+open VaxisModel.Model.ParserReaderInterp in
+/-- **… and for everything regenerated at once**: the transition table regenerated from the state
+    functions *and* the bodies of `readRune` and `print` regenerated as statement skeletons and
+    interpreted (`runChunksI` — what the correspondence driver runs): every byte stream, every read
+    splitting, any oracle that never joins a C0 control ⇒ exactly the Spec's items (F102 on), `EOF{}`. -/
+theorem gen_interpreted_refines_spec (cl : Nat → Nat) (chunks : List (List UInt8))
+    (hR : Respects cl 0 (units (streamOf chunks))) :
+    (runChunksI Gen.ParserReader.readRuneBody Gen.ParserReader.printBody genTable cl (natChunks chunks)).map
+        (fun items => noErr (flat items)) =
+      some ((specItems devAll (decodeRunes (streamOf chunks))).map specSeq ++ [.eof]) := by
+  rw [VaxisModel.Props.C02Text.reader_interpreted_eq_model]
+  simp only [Option.map_some]
+  rw [gen_model_refines_spec_partial cl chunks hR]
+
 /-- **The model's UTF-8 decoding is the Spec's** (`Spec.VT500.decode`: Table 3-7 of the Unicode
     standard, every byte that does not start a well-formed sequence delivered raw) — every byte list. -/
 theorem decoder_is_spec (bs : List Nat) : Spec.VT500.decode bs = decodeRunes bs :=
